@@ -210,13 +210,27 @@ func Run(dir, tier string, seed int64) error {
 				}
 			}
 			// ---- Coq cases for the three small endpoints
-			certOK, mkeyOK, healthOK := true, true, true
+			healthOK := true
+			shapeOf := func(kind string) int {
+				switch kind {
+				case "nilrecord":
+					return 2
+				case "nokey":
+					return 3
+				case "nocert":
+					return 4
+				case "emptycert":
+					return 5
+				}
+				return 1 // every error shape
+			}
+			rShape, mShape := 0, 0
 			for _, f := range fired {
 				switch f.Op {
 				case "GetResponseSigningKey":
-					certOK = false
+					rShape = shapeOf(f.Kind)
 				case "GetMetadataSigningKey":
-					mkeyOK = false
+					mShape = shapeOf(f.Kind)
 				case "Health":
 					healthOK = false
 				}
@@ -242,18 +256,14 @@ func Run(dir, tier string, seed int64) error {
 				epk = 1
 				signConf = ep.name != "metadata" && ep.name != "metadata-with-organisation"
 				signerOK = ep.name != "metadata-signed-unusable-algorithm"
-				for _, f := range fired { // an empty certificate passes getMetadataCert and fails in the signer
-					if f.Op == "GetMetadataSigningKey" && f.Kind == "emptycert" {
-						mkeyOK, signerOK = true, false
-					}
-				}
+				// (an empty certificate passes getMetadataCert and fails in the signer: decided by the model from the answer shape)
 			case ep.name == "certificate":
 				epk = 2
 			case ep.name == "ready":
 				epk = 3
 			}
 			if epk != 0 {
-				run.AddCase(id, fmt.Sprintf("(%s, %s, %s, %s, %s, %s, %s, %s)", coqgen.Z(int64(id)), coqgen.Z(int64(epk)), coqgen.Bool(certOK), coqgen.Bool(signConf), coqgen.Bool(mkeyOK), coqgen.Bool(signerOK), coqgen.Bool(healthOK), coqgen.Z(int64(obs))), desc)
+				run.AddCase(id, fmt.Sprintf("(%s, %s, %s, %s, %s, %s, %s, %s)", coqgen.Z(int64(id)), coqgen.Z(int64(epk)), coqgen.Z(int64(rShape)), coqgen.Bool(signConf), coqgen.Z(int64(mShape)), coqgen.Bool(signerOK), coqgen.Bool(healthOK), coqgen.Z(int64(obs))), desc)
 			}
 			id++
 		}
